@@ -1,5 +1,6 @@
 import QiVerif.Driver.Util
 import QiVerif.Driver.C01
+import QiVerif.Driver.C20
 open QiVerif.Driver
 
 /-- parameters handed over by ./check from the regenerated constants -/
@@ -17,6 +18,7 @@ def dispatch (p : Params) (line : String) : String :=
   | [] => "bad-op"
   | op :: _ =>
     if op.startsWith "msg." then C01.run p.maxPayload ws
+    else if op.startsWith "conv" then C20.run ws
     else "bad-op"
 
 partial def loop (p : Params) (h : IO.FS.Stream) (out : IO.FS.Stream) : IO Unit := do
